@@ -79,6 +79,15 @@ fn observe(obj: &dyn Aml, raw: Option<Vec<u8>>, run: u64, inner: &Value, out: &m
         if !big {
             obj.to_aml_bytes(&mut sdt); // quadratic in the object size (checksum recomputed per byte)
         }
+        // a generic table that already holds data, such that the object straddles a 64 KiB boundary of the table's
+        // length (every byte pushed re-sums the table: only small objects, one run in eight)
+        let mut sdt2: Option<Sdt> = None;
+        if run % 8 == 0 && v.len() >= 2 && v.len() <= 1500 {
+            let mut t = Sdt::new(*b"SNK2", 36, 1, *b"VERIF_", *b"SINKTEST", 1);
+            t.append_slice(&vec![0xEEu8; 65536 - 36 - v.len() / 2]);
+            obj.to_aml_bytes(&mut t);
+            sdt2 = Some(t);
+        }
         let mut pb = aml::PackageBuilder::new();
         obj.to_aml_bytes(&mut pb);
         let mut pbv = Vec::new();
@@ -91,6 +100,13 @@ fn observe(obj: &dyn Aml, raw: Option<Vec<u8>>, run: u64, inner: &Value, out: &m
         if !big {
             e["sdt"] = jbytes(sdt.as_slice());
             e["sdt_len"] = json!(sdt.len() as u64);
+        }
+        if let Some(t) = &sdt2 {
+            let sl = t.as_slice();
+            e["sdt2_len"] = json!(sl.len() as u64);
+            e["sdt2_sum8"] = json!(sum8(sl));
+            e["sdt2_head"] = jbytes(&sl[..36]);
+            e["sdt2_tail"] = jbytes(&sl[sl.len() - v.len().min(sl.len())..]);
         }
         if let Some(r) = &raw {
             e["raw"] = jbytes(r);
